@@ -168,7 +168,7 @@ class Run:
                 self.pending_triggers.append(item)
             else:
                 sim.at(item['t'], self._apply, item)
-            if item['kind'] not in ('boot', 'rpc', 'end_faults'):
+            if item['kind'] not in ('boot', 'rpc', 'end_faults', 'probe'):
                 if 't' in item:
                     self.t_faults_end_us = max(self.t_faults_end_us, int(item['t'] * US))
         sim.at(1.0, self._sample)
@@ -255,6 +255,13 @@ class Run:
             pass
         elif kind.startswith('p_'):
             fired = self._apply_puppet(item)
+        elif kind == 'probe':
+            nick = item['inst']
+            fired = False
+            for obs in self.observers:
+                f = getattr(obs, 'on_probe', None)
+                if f:
+                    fired = f(item, nick) or fired
         elif kind == 'replay_note':
             # a stale / duplicated hand-shake notification: one that the instance's own proxies did deliver earlier
             inst = sim.instances.get(item['inst'])
